@@ -33,8 +33,10 @@ def refusals : St → List Ev → List String → List String
     | some r => refusals (apply s e) es (r :: acc)
 
 def handle (impl : String) : String :=
-  if impl.startsWith "PANIC" || impl.startsWith "HANG" || impl.startsWith "ERR" then
-    s!"* | 0:C12.scenario-{(impl.splitOn ":").head!.toLower} | 1"
+  if impl.startsWith "HANG" && (impl.splitOn "SPIN:acktimer").length > 1 then
+    "* | 0:C12.scenario-hang-ack-timer-spin | 1"
+  else if impl.startsWith "PANIC" || impl.startsWith "HANG" || impl.startsWith "ERR" then
+    s!"* | 0:C12.scenario-{(((impl.splitOn ":").head!.splitOn " ").head!).toLower} | 1"
   else
   match toks impl with
   | [] => "!empty | - | 0"
